@@ -87,6 +87,7 @@ static inline std::string fmt_value(const std::string &fmt, const Civ &c)
 		case 'B': snprintf(b, sizeof(b), "%s", en_lmon[c.m - 1]); break;
 		case 'a': snprintf(b, sizeof(b), "%s", en_awd[wd]); break;
 		case 'A': snprintf(b, sizeof(b), "%s", en_lwd[wd]); break;
+		case 'N': snprintf(b, sizeof(b), "%09d", (c.S * 16807 + c.M * 131 + c.d) % 1000 * 1000000 + c.H * 1000 + c.y % 1000); break;
 		case 's': snprintf(b, sizeof(b), "%lld", (long long)model::epoch_from_civil(c.y, (unsigned)c.m, (unsigned)c.d, (unsigned)c.H, (unsigned)c.M, (unsigned)c.S)); break;
 		case 'G':
 		case 'V':
@@ -140,6 +141,7 @@ static const InFmt infmts[] = {
 	{"%Y%m%dT%H%M%S", K_DT, true, true},
 	{"%d %b %Y %H:%M:%S", K_DT, true, true},
 	{"%s", K_DT, true, true},
+	{"%s.%N", K_DT, true, true},
 	{"%F %I:%M:%S %p", K_DT, true, true},
 	{"%Y%m%d%H%M%S", K_DT, true, true},
 	{"%T", K_TIME, true, true},
@@ -156,7 +158,7 @@ static const InFmt infmts[] = {
 	{"%M:%S", K_TIME, false, true},
 };
 static const size_t n_infmts = sizeof(infmts) / sizeof(*infmts);
-static const size_t n_full_infmts = 26;	/* the first entries */
+static const size_t n_full_infmts = 27;	/* the first entries */
 
 static inline std::string default_value(const Civ &c, int kind, Rng &r, bool sed_forms = false)
 {
@@ -253,6 +255,11 @@ struct Inv {
 	std::vector<std::string> ifmts;	/* the -i formats values are drawn from; empty = default parser */
 	size_t pos_at = 0;		/* index into fixed where the operands (durations, rounding targets) begin */
 	bool many_if = false, empty_mode = false, sed_default_forms = false, no_junk = false, day_gt12 = false;
+	/* narrow: every value lies in one month, in several calendars, with day numbers and count/weekday pairs that
+	 * coincide numerically (ymd day d next to ymcw count c and weekday w with d == 8c + w, the packed layout) */
+	bool narrow = false;
+	int ny = 2012, nm = 3;
+	mutable std::vector<int> ndays;
 	bool full = true;		/* every value determines all fields */
 	bool has_base = false;
 	bool zone = false;
@@ -279,11 +286,36 @@ static inline std::string inv_value(Rng &r, const Inv &iv)
 	/* day 20 or 30: it cannot be a month, and neither can what is left of it when the finder starts one digit later */
 	if (iv.day_gt12)
 		c.d = c.m != 2 && r.chance(1, 2) ? 30 : 20;
+	if (iv.narrow && iv.ifmts.empty() && iv.kind != K_TIME) {
+		char b[64];
+		std::string tm;
+		if (iv.kind == K_DT) {
+			snprintf(b, sizeof(b), "T%02d:%02d:%02d", c.H, c.M, c.S);
+			tm = b;
+		}
+		unsigned md = model::mdays(iv.ny, (unsigned)iv.nm);
+		if (!iv.ndays.empty() && r.chance(1, 2)) {
+			/* the count-weekday spelling whose packed fields equal an earlier day number */
+			int d = iv.ndays[r.below(iv.ndays.size())];
+			int cc = d / 8, w = d % 8;
+			if (cc >= 1 && cc <= 5 && w >= 1 && w <= 7) {
+				snprintf(b, sizeof(b), "%04d-%02d-%02d-%02d", iv.ny, iv.nm, cc, w);
+				return b + tm;
+			}
+		}
+		int d = (int)r.range(9, md);
+		if (iv.ndays.size() < 64)
+			iv.ndays.push_back(d);
+		snprintf(b, sizeof(b), "%04d-%02d-%02d", iv.ny, iv.nm, d);
+		return b + tm;
+	}
 	if (iv.ifmts.empty())
 		return default_value(c, iv.kind, r, iv.sed_default_forms);
 	const std::string &f = iv.ifmts[r.below(iv.ifmts.size())];
-	if (f == "%s" && c.y < 1970)
+	if (f.compare(0, 2, "%s") == 0 && c.y < 1970)
 		c.y += 100;
+	if (f.compare(0, 2, "%s") == 0 && r.chance(1, 10))
+		c.y = 1970, c.m = 1, c.d = 1, c.H = c.M = 0, c.S = (int)r.below(2);	/* the epoch itself and the second after */
 	return fmt_value(f, c);
 }
 
@@ -312,6 +344,13 @@ static const Fam fams[] = {{fam_dmy, 2, K_DATE}, {fam_iso, 3, K_DT}, {fam_cmp, 3
 static inline std::string rand_base(Rng &r)
 {
 	Civ b = rand_civ(r);
+	if (r.chance(1, 4)) {
+		/* the ends of the supported range */
+		static const int ys[] = {1601, 1601, 1602, 1700, 2400, 4094, 4095, 4095};
+		b.y = ys[r.below(8)];
+		if (b.d > 28)
+			b.d = 28;
+	}
 	switch (r.below(8)) {
 	case 0:
 	case 1:
@@ -320,7 +359,9 @@ static inline std::string rand_base(Rng &r)
 	case 3:
 		return fmt_value("%FT%T", b);
 	case 4:
-		return "@" + fmt_value("%s", b.y < 1970 ? (b.y += 100, b) : b);
+		if (b.y < 1970 || b.y > 2400)
+			b.y = 1970 + b.y % 400;
+		return "@" + fmt_value("%s", b);
 	case 5:
 		return fmt_value("%G-W%V-0%u", b);
 	case 6:
@@ -432,6 +473,11 @@ static inline Inv rand_inv(Rng &r, const GenOpt &go)
 		}
 	}
 	iv.ifmts = ifmts;
+	if (ifmts.empty() && iv.kind != K_TIME && !go.sed_default_forms && r.chance(1, 6)) {
+		iv.narrow = true;
+		iv.ny = (int)r.range(1990, 2030);
+		iv.nm = (int)r.range(1, 12);
+	}
 	/* a bare time needs a date from somewhere as soon as zones or epoch output come in */
 	bool timeonly = iv.kind == K_TIME;
 	if (!iv.full || (go.want_full && timeonly && r.chance(1, 2)) || r.chance(1, 16)) {
